@@ -424,6 +424,39 @@ def frag_down(b, rng):
     b.ack(ref(k, 1))
 
 
+def frag_down_retry(b, rng):
+    """a single lease call fails with a store fault (500); the lease then runs out / the message is re-leased or canceled; the worker
+    retries with the OLD lease id, singly and inside a batch: a call that never succeeded has no duplicate - the retry is a conflict"""
+    b.tags.add("store-down-retry")
+    b.enqueue()
+    b.enqueue()
+    k = b.dequeue(batch=2, ttl=rng.choice([2 * SEC, 5 * SEC]), expect=2)
+    kind = rng.choice(["ack", "nack", "dead"])
+    b.down(True)
+    if kind == "ack":
+        b.ack(ref(k, 0))
+    elif kind == "nack":
+        b.nack(ref(k, 0), delay=SEC)
+    else:
+        b.nack(ref(k, 0), dead=True, reason="boom")
+    b.down(False)
+    how = rng.choice(["expire", "expire-release", "cancel"])
+    if how == "cancel":
+        b.manage("cancel", ["m%02d" % (b.next_id - 2)])
+    else:
+        b.tick(6 * SEC)
+        if how == "expire-release":
+            b.dequeue(batch=2, ttl=60 * SEC, expect=2)        # both messages are leased again, under new ids
+    b.tick(rng.choice([0, MS, SEC]))
+    if kind == "ack":
+        b.ack(ref(k, 0))
+    elif kind == "nack":
+        b.nack(ref(k, 0), delay=SEC)
+    else:
+        b.nack(ref(k, 0), dead=True, reason="boom")
+    batch_call(b, rng, "ack" if kind == "ack" else "nack", [ref(k, 0), ref(k, 1)])
+
+
 def frag_clamps(b, rng):
     """dequeue clamps: batch <= 0 -> 1, MaxBatch, store cap 100, lease ttl default / maximum, max_wait"""
     b.tags.add("dequeue-clamps")
@@ -505,7 +538,7 @@ def batch_call(b, rng, kind, leases):
 
 
 FRAGS = [(frag_dup_ack, 16), (frag_released, 14), (frag_cancel_requeue, 12), (frag_nack_dup, 12), (frag_nack_dead, 6),
-         (frag_extend, 8), (frag_batch, 14), (frag_batch_stale_retry, 10), (frag_batch_shape, 5), (frag_raw, 4), (frag_capacity, 7), (frag_down, 4),
+         (frag_extend, 8), (frag_batch, 14), (frag_batch_stale_retry, 10), (frag_batch_shape, 5), (frag_raw, 4), (frag_capacity, 7), (frag_down, 4), (frag_down_retry, 9),
          (frag_clamps, 8), (frag_clock, 5)]
 
 
